@@ -68,12 +68,14 @@ RelClause(e) ==
   ELSE IF e.rel = "density" THEN (IF ~ScaledOut(e.a, e.b, e.k) THEN "DensityScaling"
                                   ELSE IF "again" \in DOMAIN e /\ ~IsNoneOut(e.again) /\ ~SameOut(e.a, e.again, -13) THEN "SameCallSameResult"
                                   ELSE "ok")
-  ELSE IF e.rel \in {"cell", "regroup", "permute"} THEN (IF SameOut(e.a, e.b, -10) THEN "ok" ELSE "CompositionInvariance:" \o e.rel)
+  ELSE IF e.rel \in {"cell", "regroup", "permute", "cellmul", "respell"} THEN (IF SameOut(e.a, e.b, -10) THEN "ok" ELSE "CompositionInvariance:" \o e.rel)
   ELSE IF e.rel = "energy" THEN (IF SameOut(e.a, e.b, -11) THEN "ok" ELSE "EnergyEqualsWavelength")
   ELSE IF e.rel = "vector" THEN (IF SameOut(e.a, e.b, -12) THEN "ok" ELSE "VectorIsPointwise")
   ELSE "UnknownRelation"
 ConvClause(e) ==
-  IF ~Close(Mul(e.E, Sq(e.lam_of_E)), KE, -12) THEN "EnergyWavelengthProduct"
+  IF "args_kept" \in DOMAIN e /\ ~e.args_kept THEN "ConverterLeavesItsArgumentAlone"
+  ELSE IF "lam_of_E_vec" \in DOMAIN e /\ (~Close(e.lam_of_E_vec, e.lam_of_E, -14) \/ ~Close(e.E_of_lam_vec, e.E_of_lam, -14)) THEN "ConverterVectorIsPointwise"
+  ELSE IF ~Close(Mul(e.E, Sq(e.lam_of_E)), KE, -12) THEN "EnergyWavelengthProduct"
   ELSE IF ~Close(e.E_back, e.E, -12) THEN "EnergyRoundTrip"
   ELSE IF ~Close(Mul(e.E_of_lam, Sq(e.lam)), KE, -12) THEN "WavelengthEnergyProduct"
   ELSE IF ~Close(Mul(e.v, e.lam_of_v), KV, -12) THEN "VelocityWavelengthProduct"
